@@ -160,7 +160,10 @@ class Gen:
         if pt:
             opts.append("ptimeout")
         if "obs" in opts and r.random() < {"C20": 0.4, "C08": 0.5, "C06": 0.3, "C04": 0.5, "C01": 0.3, "C05": 0.3}.get(self.focus, 0.0):
-            opts[opts.index("obs")] = "otel"      # the real OpenTelemetry implementation over the SDK recorders
+            # the real OpenTelemetry implementation over the SDK recorders; "otelns": over a tracer that samples nothing
+            opts[opts.index("obs")] = "otel" if r.random() < 0.7 else "otelns"
+            if r.random() < 0.4:
+                self.types.append(r.choice([0, 45]))      # event types that implement otel.SpanAttributer
         r.shuffle(opts)
         lines.append("opts " + " ".join(opts))
         if any(o.startswith("store") for o in opts) and r.random() < (0.8 if self.focus == "C13" else 0.3):
@@ -234,7 +237,7 @@ PROJ = {
     "C08": ("enter", "exit", "hook"),
     "C09": ("append", "log", "enter"),
     "C13": ("append", "perr", "log", "enter", "exit"),
-    "C20": ("obs", "otel", "enter", "exit"),
+    "C20": ("obs", "otel", "otelns", "enter", "exit"),
 }
 
 def _proj(prop, out):
